@@ -78,7 +78,8 @@ def execute(sc):
 def _arrays_only(info):
     """canonical per-fit arrays of a result, without its source (which is the caller's own, editable object)"""
     import pickle
-    return pickle.loads(canon_record(info))[1:]
+    from ..canon import canon_meta
+    return pickle.loads(canon_record(info))[1:] + (canon_meta(info.meta),)
 
 
 def _by_name(info):
@@ -307,6 +308,11 @@ def _execute(sc, sim, out):
                 if not _compare(out, 'flux-scaling', ref[i][1], rr[1], -0.5 * np.log10(c), 'fluxes and errors x %g' % c):
                     break
             paired.append('P3')
+    if not out.violations:
+        for info, c in earlier:
+            if _arrays_only(info) != c:
+                out.violate('earlier-result-changed', 'a result returned earlier (arrays or metadata) was changed by later fits, possibly by another fitter on another package')
+                break
     trace.append(tuple(paired))
     out.trace = trace
 
